@@ -170,6 +170,12 @@ func runInBubble(spec RunSpec, res *Result) {
 			s.Apply(st)
 			steps = append(steps, st)
 		}
+		if prof.Tail != nil {
+			for _, st := range prof.Tail(r, s) {
+				s.Apply(st)
+				steps = append(steps, st)
+			}
+		}
 	}
 	res.Steps = steps
 	if cfg.Quiesce && !spec.NoQuiesce {
